@@ -178,19 +178,33 @@ func loadSearchMessages(targetDB *sql.DB, mailboxID int64) ([]messageInfo, error
 	return messages, nil
 }
 
-// simpleSearchKeyLen reports whether tokens[i] starts a key without sub-keys, and how many tokens it spans
-func simpleSearchKeyLen(tokens []string, i int) (int, bool) {
+// searchKeyLen reports how many tokens the search key starting at tokens[i] spans: a key with its arguments, a
+// parenthesised group (one token), NOT with its key, OR with its two keys. ok is false when the key is incomplete:
+// an argument or a sub-key is missing, or a group is not closed or not valid inside.
+func searchKeyLen(tokens []string, i int) (int, bool) {
+	if i >= len(tokens) {
+		return 0, false
+	}
 	token := strings.ToUpper(tokens[i])
+	switch token {
+	case "NOT":
+		n, ok := searchKeyLen(tokens, i+1)
+		return 1 + n, ok
+	case "OR":
+		n1, ok := searchKeyLen(tokens, i+1)
+		if !ok {
+			return 0, false
+		}
+		n2, ok := searchKeyLen(tokens, i+1+n1)
+		return 1 + n1 + n2, ok
+	case "HEADER":
+		if i+2 < len(tokens) {
+			return 3, true
+		}
+		return 0, false
+	}
 	if isSequenceSet(token) {
 		return 1, true
-	}
-	switch token {
-	case "ALL", "ANSWERED", "DELETED", "DRAFT", "FLAGGED", "NEW", "OLD", "RECENT", "SEEN",
-		"UNANSWERED", "UNDELETED", "UNDRAFT", "UNFLAGGED", "UNSEEN":
-		return 1, true
-	}
-	if token == "HEADER" || token == "NOT" || token == "OR" {
-		return 0, false
 	}
 	if requiresArgument(token) {
 		if i+1 < len(tokens) {
@@ -198,55 +212,35 @@ func simpleSearchKeyLen(tokens []string, i int) (int, bool) {
 		}
 		return 0, false
 	}
-	// A parenthesised group is not implemented. Any other unknown word is skipped by the evaluator
-	// (it matches every message), which the existing tests rely on.
 	if strings.HasPrefix(token, "(") {
-		return 0, false
+		inner, ok := searchGroup(tokens[i])
+		if !ok || validateSearchTokens(parseSearchTokens(inner)) != nil {
+			return 0, false
+		}
+		return 1, true
 	}
+	// A flag key, or an unknown word: the evaluator skips unknown words (they match every message), which the
+	// existing tests rely on
 	return 1, true
 }
 
-// validateSearchTokens walks the tokens the way evaluateTokens does and refuses what it would misread:
-// parenthesised groups, missing arguments, and NOT / OR over anything but simple keys
+// searchGroup returns what is between the parentheses of a group token
+func searchGroup(token string) (string, bool) {
+	if len(token) < 2 || token[0] != '(' || token[len(token)-1] != ')' {
+		return "", false
+	}
+	return token[1 : len(token)-1], true
+}
+
+// validateSearchTokens walks the tokens the way evaluateTokens does and refuses a program with an incomplete key
 func validateSearchTokens(tokens []string) error {
 	i := 0
 	for i < len(tokens) {
-		token := strings.ToUpper(tokens[i])
-		switch token {
-		case "HEADER":
-			if i+2 >= len(tokens) {
-				return fmt.Errorf("%w: HEADER requires a field name and a string", errUnsupportedSearchKey)
-			}
-			i += 3
-		case "NOT":
-			if i+1 >= len(tokens) {
-				return fmt.Errorf("%w: NOT requires a search key", errUnsupportedSearchKey)
-			}
-			n, ok := simpleSearchKeyLen(tokens, i+1)
-			if !ok {
-				return fmt.Errorf("%w: NOT %s", errUnsupportedSearchKey, tokens[i+1])
-			}
-			i += 1 + n
-		case "OR":
-			if i+1 >= len(tokens) {
-				return fmt.Errorf("%w: OR requires two search keys", errUnsupportedSearchKey)
-			}
-			n1, ok := simpleSearchKeyLen(tokens, i+1)
-			if !ok || i+1+n1 >= len(tokens) {
-				return fmt.Errorf("%w: OR requires two simple search keys", errUnsupportedSearchKey)
-			}
-			n2, ok := simpleSearchKeyLen(tokens, i+1+n1)
-			if !ok {
-				return fmt.Errorf("%w: OR requires two simple search keys", errUnsupportedSearchKey)
-			}
-			i += 1 + n1 + n2
-		default:
-			n, ok := simpleSearchKeyLen(tokens, i)
-			if !ok {
-				return fmt.Errorf("%w: %s", errUnsupportedSearchKey, tokens[i])
-			}
-			i += n
+		n, ok := searchKeyLen(tokens, i)
+		if !ok {
+			return fmt.Errorf("%w: %s", errUnsupportedSearchKey, tokens[i])
 		}
+		i += n
 	}
 	return nil
 }
@@ -428,48 +422,31 @@ func evaluateTokens(msg messageInfo, tokens []string, charset string, targetDB *
 			i++
 
 		case "NOT":
-			// NOT <search-key>
-			if i+1 >= len(tokens) {
+			// NOT <search-key>, the key being any key: simple, a group, or another NOT / OR
+			n, ok := searchKeyLen(tokens, i+1)
+			if !ok {
 				return false
 			}
-			i++
-			// Evaluate next token and negate result
-			nextTokens := []string{tokens[i]}
-			// Handle NOT with arguments (e.g., NOT FROM "Smith")
-			if i+1 < len(tokens) && requiresArgument(strings.ToUpper(tokens[i])) {
-				i++
-				nextTokens = append(nextTokens, tokens[i])
-			}
-			if evaluateTokens(msg, nextTokens, charset, targetDB, deps) {
+			if evaluateTokens(msg, tokens[i+1:i+1+n], charset, targetDB, deps) {
 				return false
 			}
-			i++
+			i += 1 + n
 
 		case "OR":
 			// OR <search-key1> <search-key2>
-			if i+2 >= len(tokens) {
+			n1, ok := searchKeyLen(tokens, i+1)
+			if !ok {
 				return false
 			}
-			i++
-			key1Tokens := []string{tokens[i]}
-			if i+1 < len(tokens) && requiresArgument(strings.ToUpper(tokens[i])) {
-				i++
-				key1Tokens = append(key1Tokens, tokens[i])
-			}
-			i++
-			if i >= len(tokens) {
-				// The first key used up the last token: the second key is missing
+			n2, ok := searchKeyLen(tokens, i+1+n1)
+			if !ok {
 				return false
 			}
-			key2Tokens := []string{tokens[i]}
-			if i+1 < len(tokens) && requiresArgument(strings.ToUpper(tokens[i])) {
-				i++
-				key2Tokens = append(key2Tokens, tokens[i])
-			}
-			if !evaluateTokens(msg, key1Tokens, charset, targetDB, deps) && !evaluateTokens(msg, key2Tokens, charset, targetDB, deps) {
+			if !evaluateTokens(msg, tokens[i+1:i+1+n1], charset, targetDB, deps) &&
+				!evaluateTokens(msg, tokens[i+1+n1:i+1+n1+n2], charset, targetDB, deps) {
 				return false
 			}
-			i++
+			i += 1 + n1 + n2
 
 		case "BCC", "CC", "FROM", "SUBJECT", "TO", "BODY", "TEXT":
 			// These require a string argument
@@ -581,6 +558,14 @@ func evaluateTokens(msg messageInfo, tokens []string, charset string, targetDB *
 			i++
 
 		default:
+			// A parenthesised group is the conjunction of the keys inside it
+			if inner, ok := searchGroup(tokens[i]); ok {
+				if !evaluateTokens(msg, parseSearchTokens(inner), charset, targetDB, deps) {
+					return false
+				}
+				i++
+				continue
+			}
 			// Unknown search key - skip it
 			i++
 		}
